@@ -295,6 +295,8 @@ structure Mod where
   staleWake : Nat := 0      -- wake-up events that woke nobody
   staleInc : Nat := 0       -- … in a later incarnation than the first (wake-up of a previous incarnation)
   wakeInactive : Nat := 0   -- wake-up events handled while the module was shut down
+  twins : Nat := 0          -- events after which one slot holds ≥ 2 entries of the same task
+  twinCancel : Nat := 0     -- drops / resets of an entry whose slot holds another entry of the same task
 
 def spawnAll (progs : List (List (Nat × Fut))) : List Task := progs.map fun p => { lines := p }
 
@@ -302,6 +304,26 @@ def spawnAll (progs : List (List (Nat × Fut))) : List Task := progs.map fun p =
 def emptyBeforeLive : List Slot → Bool
   | [] => false
   | s :: rest => if s.entries.isEmpty then rest.any (fun r => !r.entries.isEmpty) else emptyBeforeLive rest
+
+/-- does some slot hold two entries of the same task (two `Sleep`s of one task, equal deadlines) -/
+def hasTwins (p : List Slot) : Bool :=
+  p.any fun sl => sl.entries.any fun e => (sl.entries.filter (·.tid == e.tid)).length ≥ 2
+
+/-- statistics: how many of the operations cancel (drop / reset) an entry while another entry of the
+    same task stays in the same slot -/
+def twinCancels : State → List Op → Nat
+  | _, [] => 0
+  | T, o :: rest =>
+    let hit : Nat := match o with
+      | .remove h sid | .reset h sid _ =>
+        match T.pending.find? (·.time == h) with
+        | some sl =>
+          match sl.entries.find? (·.sid == sid) with
+          | some e => if (sl.entries.filter (·.tid == e.tid)).length ≥ 2 then 1 else 0
+          | none => 0
+        | none => 0
+      | _ => 0
+    hit + twinCancels (applyOp T o) rest
 
 /-- second half of a module event, after the scheduler turn left the tasks `tasks'` and the shared
     state `a`: the whole event as far as the driver is concerned (`ev1`: activate, the emitted ops,
@@ -323,6 +345,9 @@ def Mod.finish (nx : List Slot → Option Nat) (m : Mod) (now : Nat) (k : Kind) 
                            staleWake := m.staleWake + (if k = .wake ∧ nwoken = 0 then 1 else 0),
                            staleInc := m.staleInc + (if k = .wake ∧ nwoken = 0 ∧ inc ≥ 1 then 1 else 0),
                            wakeInactive := m.wakeInactive + (if k = .wake ∧ active = false then 1 else 0),
+                           twins := m.twins + (if hasTwins t3.pending then 1 else 0),
+                           twinCancel := m.twinCancel + twinCancels (activate now (if k = .wake
+                             then { m.timer with wakeups := m.timer.wakeups.erase now } else m.timer)).1 a.ops,
                            emptyFront := m.emptyFront + (if emptyBeforeLive t3.pending then 1 else 0) }
   match a.shut, k with
   | _, .simEnd => (m1, [ev1])
